@@ -65,6 +65,7 @@ def on_ready_cases() -> Any:
         # where the source's hooks live: in its class body, in a base class it inherits from, or bound on the instance (callbacks handed
         # to the constructor, a mock): `source.pre_send(task)` reaches them in every case
         "bind": st.sampled_from(["class", "class", "inherited", "instance"]),
+        "surrogate": st.sampled_from([False, False, True]),
     })
 
 
@@ -96,6 +97,11 @@ def strict_eq(a: Any, b: Any) -> bool:
 
 
 def run_on_ready(c: Dict[str, Any]) -> Outcome:
+    if c.get("surrogate") and c["codec"] != "jsonfmt":
+        # a text argument / kwarg / label value with a lone surrogate (an undecodable file name through os.fsdecode): the stdlib-JSON and
+        # pickle serialisers carry it; pydantic's own JSON writer (JSONFormatter) refuses such text by design, so it is not used there
+        c = dict(c, args=list(c["args"]) + ["report-\udcff.csv"], kwargs=dict(c["kwargs"], path="\ud800x"),
+                 labels=dict(c["labels"], **{"origin-file": {"s": "a\udcffb"}}))
     out = Outcome()
     out.clauses_checked = ["C16.a", "C16.b"]
     log: List[Any] = []
